@@ -162,9 +162,6 @@ func (g *gen) strBody(q byte, n int) string {
 			continue
 		}
 		if !g.known {
-			if prevLt && (p[0] == '/' || strings.HasPrefix(p, "\\/")) {
-				continue
-			}
 			if strings.HasPrefix(p, "<") || strings.HasPrefix(p, "\\x3") {
 				lt = lt || p == "<"
 			}
@@ -179,6 +176,7 @@ func (g *gen) strBody(q byte, n int) string {
 		}
 		b.WriteString(p)
 		prevDollar, prevLt, prevNul = dollar, lt, nul
+		_ = prevLt // (K30 repaired: `<` followed by `/` is no longer avoided)
 		if strings.HasSuffix(p, "\\") {
 			prevDollar = true
 		}
